@@ -112,6 +112,13 @@ Theorem C16_rate_a_is_loading_limit : forall max_load max_i_ka df par vn s3 i_ka
 Proof. exact rate_a_loading. Qed.
 Print Assumptions C16_rate_a_is_loading_limit.
 
+(* transformer limit: apparent power within RATE_A <-> reported loading within max_loading_percent *)
+Theorem C16_rate_a_trafo_is_loading_limit : forall max_load sn df par s,
+  0 < sn * df * par ->
+  (s <= rate_a_trafo max_load sn df par <-> s / (sn * df * par) * 100 <= max_load).
+Proof. exact rate_a_trafo_loading. Qed.
+Print Assumptions C16_rate_a_trafo_is_loading_limit.
+
 (* bus voltage limits: untouched buses keep the bus table limits, the last fixed-voltage element pins vm +- delta *)
 Theorem C16_vm_untouched : forall lims ws delta b,
   (forall w, In w ws -> fst w <> b) -> nth_error (vm_writes lims ws delta) b = nth_error lims b.
